@@ -201,3 +201,24 @@ def reachable(graph, roots):
         seen.add(q)
         stack.extend(graph.get(q, ()))
     return seen
+
+
+def memoised_functions(prog, module_prefixes=None):
+    """functions whose results are remembered across calls by a decorator (functools.lru_cache / cache): a decode that
+    goes through one of them depends on what an earlier call with equal arguments saw (e.g. a file that has changed since)"""
+    out = []
+    for m in prog.modules.values():
+        if module_prefixes and not any(m.name == p or m.name.startswith(p + ".") or m.name.startswith(p) for p in module_prefixes):
+            continue
+        for f in m.all_functions():
+            if f.deco & {"lru_cache", "cache", "cached_property", "memoize", "memoise"}:
+                out.append(f)
+    return out
+
+
+def check_no_memoised(rep, prog, rule, module_prefixes, what):
+    fs = memoised_functions(prog, module_prefixes)
+    for f in fs:
+        rep.fail(rule, f.qual, f.node, "%s is memoised by a decorator: %s" % (f.qual, what), node=f.node, file=f.module.rel)
+    if not fs:
+        rep.ok(rule, "no decoder function under %s is memoised across calls" % ", ".join(module_prefixes or ["modules/"]))
